@@ -143,7 +143,7 @@ def _iter_range(ctx, rule):
 def sibling(ctx, rule):
     b = ctx.body(ISRB)
     calls = [q.shape(b.expr_of_call(t)) for bi, t in b.calls()]
-    ctx.check([c for c in calls if not c.startswith("Result::ok(")] == ["Pread::pread_with(arg1,0,endian::LE)", "Result::is_ok_and(Pread::pread_with(arg1,0,endian::LE),\u03bb(RamBundleHeader::is_valid_magic(p1)))"], rule, ISRB, "shape",
+    ctx.check([c for c in calls if not c.startswith("Result::ok(")] == ["Pread::pread_with(arg1,0,endian::LE)", "Result::is_ok_and(Pread::pread_with(arg1,0,endian::LE),fn:RamBundleHeader::is_valid_magic)"], rule, ISRB, "shape",
               "recognition reads the same header type at offset 0, little-endian; a short buffer reads as false", detail=str(calls))
     hdr = [a for bi, t in b.calls() if q.nice(t.get("callee")) == "Pread::pread_with" for a in t.get("callee_args", []) if "RamBundleHeader" in a]
     ctx.check(bool(hdr), rule, ISRB, "header-type", "the value read is a RamBundleHeader")
